@@ -29,7 +29,7 @@ ASSUMPTIONS = ["nvmon.ref exact reference for vertex positions (uv within 1e-12 
 FLOORS = {'quick': {'topology': 150, 'vertex-on-surface': 1500, 'quads': 100, 'trim-cells': 1000, 'obj': 60, 'off': 60, 'stl-ascii': 60,
                     'stl-binary': 60, 'container': 30},
           'thorough': {'topology': 1500, 'vertex-on-surface': 15000, 'trim-cells': 10000}}
-MANDATORY_TAGS = ['trim:sense-detected:first-corner-reflex', 'trim:mesh-read-before-sense-detection', 'container:element-edited-after-mesh-read', 'partial-evaluate-before:iso', 'far-from-origin', 'export:spacing-after-tessellation', 'mesh:kept-across-edit', 'partial-evaluate-before', 'spacing1', 'spacing>=2', 'spacing>=3', 'spacing:not-dividing', 'rational', 'trim:freeform', 'trim:spline', 'trim:reversed', 'trim:clockwise', 'trim:non-unit-domain', 'trim:added-after-tessellation', 'trim:setter-replaces', 'tessellator:reinstalled-after-edit', 'container', 'container:tessellator-replaced', 'quad:as-surface-tessellator', 'export:quad-mesh',
+MANDATORY_TAGS = ['single:spacing-kept-across-inplace-edit', 'trim:sense-detected:first-corner-reflex', 'trim:mesh-read-before-sense-detection', 'container:element-edited-after-mesh-read', 'partial-evaluate-before:iso', 'far-from-origin', 'export:spacing-after-tessellation', 'mesh:kept-across-edit', 'partial-evaluate-before', 'spacing1', 'spacing>=2', 'spacing>=3', 'spacing:not-dividing', 'rational', 'trim:freeform', 'trim:spline', 'trim:reversed', 'trim:clockwise', 'trim:non-unit-domain', 'trim:added-after-tessellation', 'trim:setter-replaces', 'tessellator:reinstalled-after-edit', 'container', 'container:tessellator-replaced', 'quad:as-surface-tessellator', 'export:quad-mesh',
                   'quad', 'non-unit-domain', 'export:file']
 TECHNIQUE = ("runtime monitoring: structural + exact-geometric oracle over every tessellation the workload produces (ids, indices, "
              "orientation, exact area cover, edge incidence, Euler characteristic, vertex = surface(uv)), cell-classification oracle "
@@ -747,6 +747,30 @@ def check_container(case, ctx):
     else:
         es4[k_].ctrlpts = [[c * 0.5 + sc for c in p_] for p_ in es4[k_].ctrlpts]
     ctx.tag('container:element-edited-after-mesh-read')
+    # (sixth hunt) the same for a single surface: a mesh asked for with vertex_spacing = k is the mesh handed out after an in-place
+    # transformation, too (the surface remembers the arguments of the request it served last)
+    s5 = G.build(case['shapes'][0])
+    s5.sample_size = 2 * rng.randint(2, 4) + 1
+    s5.tessellate(vertex_spacing=2)
+    n5 = (len(s5.vertices), len(s5.faces))
+    ops_.translate(s5, [1.5 * sc, 0.0, -2.0 * sc], inplace=True)
+    ctx.tag('single:spacing-kept-across-inplace-edit')
+    ctx.check((len(s5.vertices), len(s5.faces)) == n5, 'single/spacing-forgotten-after-edit', 'surface tessellated with vertex_spacing=2 (%d vertices / '
+              '%d faces), translated in place, mesh read again: %d vertices / %d faces' % (n5[0], n5[1], len(s5.vertices), len(s5.faces)), what='container')
+    # ... and for surfaces that were given ONE tessellation component and are tessellated through their container
+    from geomdl import tessellate as tess_
+    es6 = [G.build(sd) for sd in case['shapes']]
+    if len(es6) >= 2:
+        shared_ = tess_.TriangularTessellate()
+        for e_ in es6:
+            e_.tessellator = shared_
+        ms6 = multi.SurfaceContainer(*es6)
+        ms6.sample_size = 7
+        ms6.tessellate(vertex_spacing=2)
+        ctx.tag('container:shared-tessellator-with-arguments')
+        ctx.check(len(ms6.vertices) == len(es6) * 16 and len(ms6.faces) == len(es6) * 18, 'container/arguments-dropped-shared-tessellator',
+                  'container of %d surfaces sharing one tessellation component, sample_size 7, tessellate(vertex_spacing=2): %d vertices / %d faces, '
+                  'expected %d / %d' % (len(es6), len(ms6.vertices), len(ms6.faces), len(es6) * 16, len(es6) * 18), what='container')
     V4 = ms4.vertices
     ok4 = len(V4) == nv_before and len(ms4.faces) == nf_before
     bad4 = None
